@@ -140,6 +140,20 @@ def run(ctx, rep):
             rep.fail("oracle", "probe-sequence", inp, {"sent": [(p, d.hex(), t) for p, d, t in probes][:8]})
         if target == "255.255.255.255" and not opts:
             rep.fail("oracle", "broadcast-option-not-set", inp, {})
+    # repeated runs in one process: the same hosts answer every run and must be reported every run
+    for rnd in range(ctx.n(6, 60)):
+        group = [g for g in rng.sample(replies, 3)]
+        if len({g[0] for g in group}) != 3:
+            continue
+        want = sorted((g[0], g[3], g[1], g[4], int(g[4] == 0xAC), g[2], tuple(g[6]), tuple(g[5])) for g in group)
+        for run_no in range(3):
+            dg = [(rng.randrange(0, 4000), g[0], 6445, g[7]) for g in group]
+            st, devs, _, _ = S.run_impl(dg)
+            rep.case(None, "repeated-run")
+            if st != 0 or devs != want:
+                rep.fail("oracle", "repeated-run-loses-device", {"run": run_no + 1, "dgrams": [(t, h, p, d.hex()) for t, h, p, d in dg]},
+                         {"status": st, "reported": devs, "advertised": want})
+                break
     rep.sample({"version": replies[0][1], "id": replies[0][2], "port": replies[0][3], "type": replies[0][4], "reply": replies[0][7].hex()})
     # the probe itself against the reference appliance, and the model's probe list against the wire
     st, outs = m.one(S.F_PROBE_OK, [list(DISCOVERY_MSG)])
